@@ -36,7 +36,9 @@ def run(tier, res, replay=None):
               'lowfi-simple', 'lowfi-6node', 'rod2-3duct',
               'rod2-convapprox', 'opt-3duct-convapprox',
               'opt-dd-regions-adiabatic-gravity', 'opt-uctd-grid-regions',
-              'opt-outlet-temp-bc', 'multi-convfactor'):
+              'opt-outlet-temp-bc', 'multi-convfactor', 'opt-five-regions',
+              'opt-only-upper-region', 'opt-only-lower-region-dd',
+              'opt-bare-kc', 'opt-dummy-pins', 'opt-htc-custom-dd'):
         lab.append((k, sl[k]))
     results = marchcheck.run_cases(lab, res, C02_CLAUSES)
     opprobe.run_probes(res, tier, rng, focus='C02',
